@@ -215,6 +215,10 @@ func (m *Impl) record(kind string, L *lua.LState) {
 		args[i-1] = m.Tok(L.Get(i))
 	}
 	m.events = append(m.events, Event{kind, args, atomic.LoadInt64(&m.B.Count)})
+	if !lua.VerifIsCurrentThread(L) {
+		// white-box invariant, recorded as an event of its own so that every trace comparison reports it
+		m.events = append(m.events, Event{"WRONG-CURRENT-THREAD", []string{"host function " + kind + " runs on a thread that G.CurrentThread does not name"}, atomic.LoadInt64(&m.B.Count)})
+	}
 }
 
 func (m *Impl) registerHost() {
